@@ -1,4 +1,5 @@
 import DeltaModel.Generated.OptionsTables
+import DeltaModel.OptionsValues
 /-!
 # Options — model of delta's option resolution (property C13)
 
@@ -8,7 +9,9 @@ Rust modelled (by hand, statement for statement):
   (`finalConfig`);
 * `src/git_config/mod.rs` `GitConfig::get` — `enabled`, `GIT_CONFIG_PARAMETERS` layer over the
   file for keys of the main `[delta]` section, per getter type (`GitCfg.getT`, `GitCfg.get`,
-  `GitCfg.getBool`; which layer each `impl GitConfigGet` consults first is generated);
+  `GitCfg.getBool`; which layer each `impl GitConfigGet` consults first and the function each half
+  reads its text with are generated; the functions themselves — libgit2's integer / boolean
+  syntax, Rust's `parse` — are in `DeltaModel/OptionsValues.lean`);
 * `src/options/set.rs` `gather_features`, `gather_features_recursively`,
   `gather_builtin_features_from_flags_in_gitconfig`, `gather_builtin_features_recursively`
   (`gatherFeatures`, `gatherR`, `gatherFlags`, `gatherB`) — the deque is a `List` whose head is
@@ -28,8 +31,8 @@ explicit parameter `π` (a list of the builtin feature names in *some* order) of
 that iterates over it.
 
 Not modelled (trusted / outside the domain): clap (which options count as supplied on the
-command line), libgit2's file parsing and value typing (the model takes the key/value lists
-and treats every value as text; booleans are `true` / `false`), the regular expression that
+command line), libgit2's file parsing (the model takes the key/value lists: quotes, escapes,
+comments already removed; a key without value is `bareMark`), the regular expression that
 parses `GIT_CONFIG_PARAMETERS` (the model takes the parsed `delta.<key>` pairs), Unicode
 white space (`words` splits on ASCII white space), dynamic builtin defaults that read other
 options (`BVal.dyn`, carried as opaque text), and the special cases of `set_options` outside
@@ -137,44 +140,36 @@ def envFirst (ty : GType) : Bool :=
 def parseBool (s : String) : Option Bool :=
   if s = "true" then some true else if s = "false" then some false else none
 
-def isDigits (s : String) : Bool := !s.toList.isEmpty && s.toList.all Char.isDigit
+/-- The `GIT_CONFIG_PARAMETERS` half of `impl GitConfigGet for <ty>`: the reading of the text `v`
+    (canonical text: decimal, `true`/`false`, the text itself), `none` = the getter falls through to
+    the file. The function used is generated (`Generated.Options.getterParsers`), its meaning is in
+    `DeltaModel/OptionsValues.lean`. -/
+def envRead (ty : GType) (v : String) : Option String := envReadBy (parsersOf ty.name).1 v
 
-/-- `digits[.digits]` — the decimal forms the harness uses for `f64` options. -/
-def isDecimal (s : String) : Bool :=
-  match s.toList.span Char.isDigit with
-  | (a, []) => !a.isEmpty
-  | (a, c :: b) => !a.isEmpty && c = '.' && !b.isEmpty && b.all Char.isDigit
+/-- The file half (`get_string` / `get_bool` / `get_i64` + what follows): the reading of the value
+    `v` (`bareMark`: a key without value), `none` = this source does not set the option. -/
+def fileRead (ty : GType) (v : String) : Option String := fileReadBy (parsersOf ty.name).2 v
 
 /-- Does the getter of type `ty` take this `GIT_CONFIG_PARAMETERS` text (otherwise it falls
-    through to the file)? `bool`: only `true` / `false`; `usize`, `f64`: only if it parses. -/
-def envAccepts (ty : GType) (v : String) : Bool :=
-  match ty with
-  | .bool => (parseBool v).isSome
-  | .usize => isDigits v
-  | .f64 => isDecimal v
-  | _ => true
+    through to the file)? -/
+def envAccepts (ty : GType) (v : String) : Bool := (envRead ty v).isSome
 
-/-- Does the file-side getter (`get_string` / `get_bool` / `get_i64`) return this text? Only the
-    boolean case is modelled (`true` / `false`); other values are in the typed domain by
-    assumption. -/
-def fileAccepts (ty : GType) (v : String) : Bool :=
-  match ty with
-  | .bool => (parseBool v).isSome
-  | _ => true
+/-- Does the file-side getter return a value for this text? -/
+def fileAccepts (ty : GType) (v : String) : Bool := (fileRead ty v).isSome
 
-/-- `git_config.get::<T>(key)` as text; `sec = none` is the main section (`delta.<k>`): two
+/-- `git_config.get::<T>(key)` as canonical text; `sec = none` is the main section (`delta.<k>`): two
     layers, `GIT_CONFIG_PARAMETERS` and the file, consulted in the order of the impl for `T`;
     `sec = some f` is `delta.<f>.<k>` (file only: the parameter regex admits no subsection). -/
 def GitCfg.getT (g : GitCfg) (ty : GType) (sec : Option Name) (k : Name) : Option String :=
   if g.enabled then
     match sec with
     | none =>
-      let e := (lookup k g.params).filter (envAccepts ty)
-      let f := (lookup k g.file.main).filter (fileAccepts ty)
+      let e := (lookup k g.params).bind (envRead ty)
+      let f := (lookup k g.file.main).bind (fileRead ty)
       if envFirst ty then e.or f else f.or e
     | some s =>
       match lookup s g.file.sections with
-      | some sct => (lookup k sct).filter (fileAccepts ty)
+      | some sct => (lookup k sct).bind (fileRead ty)
       | none => none
   else none
 
